@@ -217,6 +217,42 @@ func main() {
 				tag = "pred-self"
 			}
 			run.Count("state:" + tag)
+			// a join request whose key hand-off fails: data is stored first, the joiner's id is the hash of a stored
+			// key (so the hand-off range is not empty) and its Import is made to fail
+			if tag == "stable" && rng.Chance(50) {
+				for _, k := range ringh.KeyTokens[:6] {
+					s.Do("put", ringh.U(hlib.Pick(rng, live)), k, ringh.U(ringh.HashOf(k)), "v")
+				}
+				k := ringh.KeyTokens[rng.Intn(6)]
+				j := ringh.HashOf(k)
+				known := false
+				for _, m := range ids {
+					known = known || m == j
+				}
+				if !known {
+					ids = append(ids, j)
+					s.Do("new", ringh.U(j))
+					s.Do("setstate", ringh.U(j), "Joining")
+					s.R.Fault = func(target uint64, method string) int {
+						if target == j && method == "Import" {
+							return 1
+						}
+						return 0
+					}
+					target := hlib.Pick(rng, live)
+					run.Begin("reqjoinfault " + ringh.U(target) + " " + ringh.U(j))
+					res := s.Do("reqjoinfault", ringh.U(target), ringh.U(j))
+					s.R.Fault = nil
+					run.Case(hlib.F("handoff-fault|%v|%d|%d", members, target, j))
+					run.Count("handoff-fault:" + strings.SplitN(res, ":", 3)[0])
+					if strings.HasPrefix(res, "ok:") {
+						for _, m := range live {
+							s.Do("finish", ringh.U(m), "false", "true")
+						}
+					}
+					s.Do("setstate", ringh.U(j), "Inactive")
+				}
+			}
 			for k := 0; k < 6; k++ {
 				var j uint64
 				switch rng.Intn(4) {
